@@ -198,7 +198,7 @@ Proof.
             beq t0 T_caret = false -> beq t0 T_undef = false ->
             win_step p E t0 (m, st) =
             if starts_var t0 then Ret (m, WVar t0 :: st)
-            else match parse_int 32 t0 with Some v => Ret (m, WInt (wrap32 v) :: st) | None => Fail end).
+            else match parse_int 64 t0 with Some v => Ret (m, WInt (wrap32 v) :: st) | None => Fail end).
   { intros t0 H1 H2 H3 H4 H5 H6 H7 H8 H9. unfold win_step. rewrite H1, H2, H3, H4, H5, H6, H7, H8, H9. reflexivity. }
   destruct t as [|c [|c2 r]].
   - (* empty token *) cbn. exact I.
@@ -254,7 +254,7 @@ Proof.
     cbn [starts_var].
     destruct ((c =? 36) || (c =? 46)) eqn:Ev; [apply (Hpush (WVar [c])); exact I|].
     destruct (digit c) as [d|] eqn:Ed.
-    + assert (Hp : parse_int 32 [c] = Some d).
+    + assert (Hp : parse_int 64 [c] = Some d).
       { unfold digit in Ed. destruct ((48 <=? c) && (c <=? 57)) eqn:Edg; [|discriminate].
         apply andb_prop in Edg. destruct Edg as [E1 E2]. apply Z.leb_le in E1. apply Z.leb_le in E2.
         inversion Ed; subst d. unfold parse_int.
@@ -262,10 +262,10 @@ Proof.
         replace (c =? 45) with false by (symmetry; apply Z.eqb_neq; lia). cbn [orb].
         cbn [digits_val]. unfold digit. replace ((48 <=? c) && (c <=? 57)) with true
           by (symmetry; apply andb_true_intro; split; apply Z.leb_le; lia).
-        replace (0 * 10 + (c - 48) <? 2 ^ (32 - 1)) with true by (symmetry; apply Z.ltb_lt; lia).
+        replace (0 * 10 + (c - 48) <? 2 ^ (64 - 1)) with true by (symmetry; apply Z.ltb_lt; lia).
         f_equal; try lia. }
       rewrite Hp. apply (Hpush (WInt (wrap32 d))). apply wrap32_u32.
-    + assert (Hp : parse_int 32 [c] = None).
+    + assert (Hp : parse_int 64 [c] = None).
       { unfold parse_int.
         repeat match goal with H : (c =? _) = false |- _ => rewrite H end. cbn [orb].
         cbn [digits_val]. rewrite Ed. reflexivity. }
@@ -277,7 +277,7 @@ Proof.
     rewrite (Hgen t); unfold t, T_plus, T_minus, T_star, T_slash, T_pct, T_at, T_eq, T_caret;
       rewrite ?beq_long_single7; try reflexivity; [|exact Eund].
     fold t. destruct (starts_var t); [apply (Hpush (WVar t)); exact I|].
-    destruct (parse_int 32 t) as [v|]; [apply (Hpush (WInt (wrap32 v))); apply wrap32_u32|exact I].
+    destruct (parse_int 64 t) as [v|]; [apply (Hpush (WInt (wrap32 v))); apply wrap32_u32|exact I].
 Qed.
 
 (* ---- the spec only looks at the function's values ---- *)
